@@ -696,7 +696,7 @@ def _decl(i, t, init_txt, oid=None, declared=True):
     return {"name": name, "id": oid, "ty": t if declared else None, "real_ty": t, "init": init, "text": s + ";"}
 
 
-def matrix_programs():
+def matrix_programs(full=True):
     """every operator x operand type x a few operand pairs, each at three sites: default
     initialiser of a derived override, derived global initialiser, function-level let;
     with an (irrelevant) pipeline constant so that the backends' PipelineConstants paths run"""
@@ -737,9 +737,11 @@ def matrix_programs():
     # supplied values: type x value class x (by name / by id) x (with / without default)
     vals = [float("nan"), float("inf"), float("-inf"), 1e10, -1e10, 4294967296.0, 4294967295.0, -2147483649.0, -2147483648.0,
             2147483648.0, 3.7, -3.7, -0.5, 0.5, -0.0, 0.0, 1.0, 2.0, 7.0, 0.1, 3.5e38, 3.4e38, 1e-46, 16777217.0]
+    if not full:
+        vals = [float("nan"), float("inf"), 1e10, 4294967296.0, -2147483649.0, 3.7, -0.5, -0.0, 2.0, 0.1, 3.5e38, 16777217.0]
     for t in (BOOL, I32, U32, F32):
         for v in vals:
-            for byid in (False, True):
+            for byid in ((False, True) if full else (False,)):
                 for with_default in (True, False):
                     a = _decl(0, t, _lit_for(t, 1 if t != F32 else 1.0) if with_default else None, oid=77 if byid else None)
                     # a derived override shows which value dependants see
